@@ -79,7 +79,10 @@ def runCase (s : St) : String :=
       | some p => s!"DIFF path={p.reverse}"
     let (st, _) := judgeTree (Edit.ofInput e) s.text s.text2 b.root a.root length_zero length_zero {}
     let j := match st.fail with
-      | none => hj
+      | none =>
+        match rangesJudge b.ranges a.ranges e with
+        | none => hj
+        | some i => s!"FAIL stored included range {i} of {b.ranges.length} did not move by the edit's mapping (rangesJudge; range_edit_eq_phi)"
       | some msg => s!"FAIL {msg}"
     let wf := if wfbCheck b.root && wfbCheck a.root then "1" else "0"
     let la := if laokCheck b.root then "1" else "0"
